@@ -15,7 +15,8 @@ META = {
     "bounds": "one request datagram of an enumerated concrete layout (method x type x Uri-Path in {none, known, unknown} x one "
               "extra option from the list in jobs/C10.py x resource table variant), symbolic mid/token/option values/Hop-Limit/"
               "No-Response value, through the real coap_dispatch -> handle_request -> handler -> coap_send_internal; plus the "
-              "static no_response() decision function over every No-Response value, response code and type.",
+              "static no_response() decision function over every No-Response value, response code and type; its multicast rules for every "
+              "code x per-resource flag word x mcast_per_resource setting (unicast vs 224.0.1.187 local address).",
     "outside": "requests with more than 3 options; arbitrary resource tables (uthash lookup is modelled: trusted third-party macro); "
                "block-wise and observe side paths (C09/C11); OSCORE; /.well-known/core body (C20); multicast delay path; async",
     "assumptions": ["coap_get_resource_from_uri_path_lkd replaced by a linear model of uthash's lookup contract",
@@ -45,6 +46,9 @@ CASES = [
     ("get-known-hop255", "non", "get", "known", "hop-limit-n", 0, 205, 1, 0, 255),
     ("get-unknown-unknownhandler", "con", "get", "unknown", "none", 2, 205, 2),
     ("put-unknown-unknownhandler", "non", "put", "unknown", "none", 2, 205, 2),
+    # If-None-Match guards EXISTING resources only: a path served by the unknown-resource handler still reaches that handler
+    ("put-unknown-ifnonematch-unknownhandler", "con", "put", "unknown", "if-none-match", 2, 205, 2),
+    ("put-unknown-ifnonematch-unknownhandler-non", "non", "put", "unknown", "if-none-match", 2, 205, 2),
     ("get-as-ack", "ack", "get", "known", "none", 0, 0, 0),
     # a legal request whose Block2 M bit is cleared in place (option scan restarts) is not a "bad option" request
     ("get-nopath-accept-block2m", "con", "get", "nopath", "accept-block2m", 0, 404, 0),
@@ -78,4 +82,7 @@ def jobs():
         js.append(Job("L1-no-response@%s" % ("with-option" if w else "no-option"), "C10/c10.c", "c10_l1_no_response", UNITS, extra_src=EXTRA,
                       defines=(["WITH_NORESPONSE"] if w else []) + CUT, remove_bodies=RB, unwind=34, flags=FS, group="L1", timeout=900, est_gb=3,
                       desc="no_response() vs RFC 7967 table, every value/code/type", bounds={"no_response": "0..255", "code": "0..255"}))
+    js.append(Job("L1-no-response@multicast", "C10/c10.c", "c10_l1_no_response_mcast", UNITS, extra_src=EXTRA, defines=CUT, remove_bodies=RB, unwind=34, flags=FS,
+                  group="L1", timeout=900, est_gb=3, desc="no_response() multicast rules: RFC 7252 8.1 default and every combination of the per-resource suppression flags, every code",
+                  bounds={"code": "0..255", "flags": "0..65535", "mcast_per_resource": "0/1"}))
     return js
